@@ -69,6 +69,24 @@ def dynamic_replay(model):
         return {"reproduced": False, "error": "%s: %s" % (type(e).__name__, e)}
 
 
+def compare_language_tables(pid, out):
+    """shipped table identical to master table (plain comparison of two files; labelled as such, not a solver result)"""
+    import hashlib
+    a = open(os.path.join(runner.REPO, "gherkin-languages.json"), "rb").read()
+    b = open(os.path.join(runner.REPO, "python/gherkin/gherkin-languages.json"), "rb").read()
+    same_json = json.loads(a) == json.loads(b)
+    out.setdefault("coverage", {})["language_tables"] = {"byte_identical": a == b, "json_equal": same_json, "sha1_master": hashlib.sha1(a).hexdigest(),
+                                                          "note": "plain file comparison, not a solver result"}
+    if not same_json:
+        ta, tb = json.loads(a), json.loads(b)
+        diff = [(d, c) for d in ta for c in ta[d] if tb.get(d, {}).get(c) != ta[d][c]][:5]
+        os.makedirs(os.path.join(runner.VERIF, "replays"), exist_ok=True)
+        path = os.path.join(runner.VERIF, "replays", "%s-tables.json" % pid)
+        json.dump({"property": pid, "what": "shipped language table differs from master table", "first_differences": diff}, open(path, "w"))
+        out.setdefault("violations", []).append({"replay": path, "what": "python/gherkin/gherkin-languages.json differs from the master table at %s" % (diff,)})
+    return out
+
+
 def untranslatable(pid, e):
     return {"violations": [], "harness_errors": ["parser.py does not have the shape the strict translator accepts: %s" % e],
             "coverage": {}, "samples": [], "queries": 0, "queries_nontrivial": 0, "solver_s": 0.0, "summary": "untranslatable"}
